@@ -18,8 +18,9 @@
                   b^m mod n and the squarings certified link by link); lucas_test must say COMPOSITE for even numbers and
                   perfect squares and give exactly the C.3.3 answer below 2^15 (evaluated here with TLC integers);
      generated primes have exactly the requested size and are odd (safe primes: = 3 mod 4). *)
-EXTENDS BigInt, Json, IOUtils
+EXTENDS Integers, Sequences, TLC, Json, IOUtils
 LOCAL INSTANCE SequencesExt
+INSTANCE BigInt        \* not EXTENDS: the ASSUMEd vectors of the data layer are evaluated once by the orchestrator, not in each of the 16 shard JVMs
 Traces == JsonDeserialize(IOEnv.TRACE_FILE)
 
 IsBytes(bs) == \A i \in 1..Len(bs) : bs[i] \in 0..255
@@ -42,38 +43,6 @@ IntVerdict(e) ==
         ELSE Joined([i \in 1..Len(e.obs) |-> <<e.obs[i].who, BiJudge(x, e.obs[i], e)>>])
 
 \* ------------------------------------------------------------------ family "prime"
-\* FIPS 186-4 C.3.3 with TLC integers, n odd, 5 < n < 2^15
-RECURSIVE SJac(_,_)
-SJac(a, n) == \* Jacobi symbol, n odd positive, 0 <= a < n
-   IF a = 0 THEN (IF n = 1 THEN 1 ELSE 0)
-   ELSE IF a % 2 = 0 THEN (IF n % 8 = 3 \/ n % 8 = 5 THEN 0 - SJac(a \div 2, n) ELSE SJac(a \div 2, n))
-   ELSE IF a = 1 THEN 1
-   ELSE IF a % 4 = 3 /\ n % 4 = 3 THEN 0 - SJac(n % a, a) ELSE SJac(n % a, a)
-RECURSIVE SIsSquareFrom(_,_)
-SIsSquareFrom(n, s) == IF s * s > n THEN FALSE ELSE IF s * s = n THEN TRUE ELSE SIsSquareFrom(n, s + 1)
-RECURSIVE SLucasD(_,_)
-\* the first D in 5, -7, 9, -11, ... with (D/n) = -1; 0 when some (D/n) = 0 first (then n is composite)
-SLucasD(n, d) == IF d = n \/ 0 - d = n THEN SLucasD(n, IF d > 0 THEN 0 - (d + 2) ELSE 2 - d)
-                 ELSE LET j == SJac(d % n, n) IN
-                      IF j = 0 THEN 0 ELSE IF j = -1 THEN d ELSE SLucasD(n, IF d > 0 THEN 0 - (d + 2) ELSE 2 - d)
-SHalf(x, n) == (IF x % 2 = 1 THEN x + n ELSE x) \div 2
-RECURSIVE SLucasLoop(_,_,_,_,_,_)
-SLucasLoop(n, dm, k, i, u, v) == \* dm = D mod n; k = n + 1; processes bit i of k
-   IF i < 0 THEN u
-   ELSE LET ut == (u * v) % n
-            vt == SHalf((((v * v) % n) + ((((u * u) % n) * dm) % n)) % n, n) % n
-        IN IF (k \div (2 ^ i)) % 2 = 1
-           THEN SLucasLoop(n, dm, k, i - 1, SHalf((ut + vt) % n, n) % n, SHalf((vt + ((ut * dm) % n)) % n, n) % n)
-           ELSE SLucasLoop(n, dm, k, i - 1, ut, vt)
-SLucas(n) == \* 1 = PROBABLY_PRIME, 0 = COMPOSITE
-   IF n \in {2, 3, 5} THEN 1 ELSE IF n % 2 = 0 \/ SIsSquareFrom(n, 1) THEN 0
-   ELSE LET d == SLucasD(n, 5) IN
-        IF d = 0 THEN 0 ELSE IF SLucasLoop(n, d % n, n + 1, BnLimbBits(n + 1) - 2, 1, 1) = 0 THEN 1 ELSE 0
-\* the odd composites below 12000 that pass are exactly the Lucas pseudoprimes of the literature (OEIS A217120)
-ASSUME {n \in 7..12000 : n % 2 = 1 /\ ~BnIsSmallPrime(n) /\ SLucas(n) = 1} = {323, 377, 1159, 1829, 3827, 5459, 5777, 9071, 9179, 10877, 11419, 11663}
-ASSUME \A n \in 2..3000 : BnIsSmallPrime(n) => SLucas(n) = 1
-ASSUME SLucas(16109) = 1 /\ SLucas(18971) = 1 /\ SLucas(16111) = 1 /\ SLucas(16113) = 0
-
 \* one Miller-Rabin round (FIPS 186-4 C.3.1 steps 4.3-4.7) for base b, certified by c = [chain, r, sq]:
 \* "witness" (b proves n composite), "liar" (round passes) or "bad" (certificate refused)
 \* the at most a - 1 squarings of step 4.5, folded over the recorded links (iteratively: a can be several hundred, e.g. for squares of
@@ -104,7 +73,7 @@ PrimeExpected(e, o, rr) ==
    ELSE IF ~BnIsOdd(e.cand) THEN 0
    ELSE IF e.op = "lucas_test" THEN
         (IF e.w.square = 1 THEN (IF BnIsNat(e.w.s) /\ BnMul(e.w.s, e.w.s) = e.cand THEN 0 ELSE -2)
-         ELSE IF Len(e.cand) <= 2 /\ BnToInt(e.cand) < 32768 /\ BnToInt(e.cand) > 5 THEN SLucas(BnToInt(e.cand)) ELSE -1)
+         ELSE IF Len(e.cand) <= 2 /\ BnToInt(e.cand) < 32768 /\ BnToInt(e.cand) > 5 THEN BiSmallLucas(BnToInt(e.cand)) ELSE -1)
    ELSE \* miller_rabin_test on an odd composite, with the bases this back-end drew
         IF o.certified = 0 THEN -1
         ELSE LET r == MrRounds(rr, o.bases, 1) IN
